@@ -173,6 +173,15 @@ inline int replay_main(const char* prop, const RunCase& run, const Matcher& matc
     int r = execute(run, match, d, c, msg, sig);
     report().account(d.hash(), c);
     std::printf("REPLAY property=%s tape=%s\n  case: %s\n", prop, options().replay.c_str(), c.desc.c_str());
+    {
+        std::string fs;
+        for (auto& kv : c.feat)
+            fs += kv.first + "=" + std::to_string(kv.second) + " ";
+        for (auto& kv : c.sfeat)
+            fs += kv.first + "=" + kv.second + " ";
+        if (!fs.empty())
+            std::printf("  features: %s\n", fs.c_str());
+    }
     if (r == 0)
     {
         std::printf("  result: PASS\n");
